@@ -37,29 +37,19 @@ func (f *Float) SubtractFromFloat(num uint) error {
 	// Convert the float to a string
 	strValue := strconv.FormatFloat(f.Value, 'f', -1, 64)
 
-	if !strings.Contains(strValue, ".") {
-		f.Value -= float64(num)
-		return nil
-	}
+	result := f.Value - float64(num)
 
-	nums := strings.Split(strValue, ".")
+	// keep the number of decimals of the original value,
+	// so that 4.4 - 1 is 3.4 and not 3.4000000000000004
+	if idx := strings.Index(strValue, "."); idx != -1 {
+		decimals := len(strValue) - idx - 1
 
-	// Parse the integer part
-	intPart, err := strconv.ParseUint(nums[0], 10, 64)
-	if err != nil {
-		return err
-	}
+		rounded, err := strconv.ParseFloat(strconv.FormatFloat(result, 'f', decimals, 64), 64)
+		if err != nil {
+			return err
+		}
 
-	// Subtract the uint value from the integer part
-	intPart -= uint64(num)
-
-	// Combine the modified integer part and the decimal part
-	resultStr := fmt.Sprintf("%d.%s", intPart, nums[1])
-
-	// Parse the result back to float64
-	result, err := strconv.ParseFloat(resultStr, 64)
-	if err != nil {
-		return err
+		result = rounded
 	}
 
 	f.Value = result
